@@ -8,9 +8,29 @@ from vlib import Break
 MODULE = "GoNfsd.Props.C18"
 
 
+def failing_kvs_functions(ctx):
+    """Concrete call sites: the methods of kvs.KVS that do not hold their keys' locks across the waiting commit."""
+    import re
+    f = os.path.join(ctx.scratch, "kvslocks.lean")
+    open(f, "w").write("import GoNfsd.Gen.Skeleton\nopen GoNfsd.Model.Skeleton GoNfsd.Gen.Skeleton\n"
+                       "#eval kvsLockUses.filterMap fun f => if simpleCheck f then none else some s!\"KVS {f.1} {f.2.2}\"\n")
+    rc, out = vlib.run(["lake", "build", "GoNfsd.Gen.Skeleton"], cwd=vlib.LEAN, timeout=600)
+    if rc != 0:
+        return []
+    rc, out = vlib.run(["lake", "env", "lean", f], cwd=vlib.LEAN, timeout=600)
+    return re.findall(r"KVS (\S+) (\[.*?\])\"", out)
+
+
 def run(ctx):
     ok_go, ok_drv = seqlib.build_and_prove(ctx, MODULE, extra_parts=["skeleton"])
     seqlib.report_flush_callers(ctx)
+    if any(b.kind == "proof" for b in ctx.breaks):
+        for name, calls in failing_kvs_functions(ctx)[:3]:
+            ctx.add_violation("lock-not-held-across-commit:" + name,
+                              "kvs.%s does not hold its keys' locks from before the transaction until after the waiting commit: (0 Acquire, 1 Release, 3 CommitWait) in source order: %s" % (name, calls),
+                              {"input": {"function": "kvs." + name, "calls_in_source_order": calls},
+                               "how": "regenerated table Gen/Skeleton.kvsLockUses checked by Model/Skeleton.simpleCheck (theorem kvs_holds_the_locks_across_the_waiting_commit): a Get beside a "
+                                      "MultiPut is answered from the journal's memory, and a crash before the put's flush takes back what the Get returned"})
     if ok_go:
         tr = os.path.join(ctx.scratch, "kvs.txt")
         args = ["-seqs", "100", "-ops", "400"] if ctx.tier == "thorough" else ["-seqs", "15", "-ops", "200"]
@@ -67,9 +87,11 @@ def run(ctx):
         ctx, "proof",
         "theorems: a MultiPut installs all of its pairs (last occurrence of a key winning) or changes nothing; a successful one is ONE journal transaction of whole-block "
         "overwrites inside the key range; after any history Get returns the value of the latest successful put containing the key (get_latest); the range guards of both "
-        "procedures coincide. Correspondence on sequences with overlapping key sets, duplicates, key-range boundaries and transactions of 511/512/600 blocks",
+        "procedures coincide; MultiPut and Get hold their keys' locks across the waiting commit (table regenerated from kvs/kvs.go), so — model M11, any interleaving — a Get returns only what a crash "
+        "cannot take back (kvs_gets_return_only_durable_values). Correspondence on sequences with overlapping key sets, duplicates, key-range boundaries and transactions of 511/512/600 blocks",
         "sequences of MultiPut (1..64 pairs, overlapping keys, duplicates inside one put; 511, 512 and 600 distinct blocks) and Get over keys at LOGSIZE-1, LOGSIZE, sz-1, sz, "
         "sz+1, 0, 2^40 and random; every result (value / refused / panic) compared",
         ["values are whole blocks identified by a fill byte and a counter"],
         pending=[],
-        partial=["concurrent callers: rounds of 2-4 overlapping MultiPuts (values from a three-letter alphabet, so puts often rewrite what is there) must be explained by some order of the puts applied by the model — sampled schedules, not a theorem", "crash atomicity/durability: theorems of C01 on the WAL model + recorded-trace validation + prefix-state oracle (all pairs of a put or none; acknowledged puts survive) on sampled crash images, recovered by kvs.MkKVS"])
+        partial=["concurrent callers: rounds of 2-4 overlapping MultiPuts (values from a three-letter alphabet, so puts often rewrite what is there) must be explained by some order of the puts applied by the model — sampled schedules, not a theorem", "crash atomicity/durability: theorems of C01 on the WAL model + recorded-trace validation + prefix-state oracle (all pairs of a put or none; acknowledged puts survive) on sampled crash images, recovered by kvs.MkKVS; crash right after a revealing reply: puts of generations 1,2,3,... of one key beside two Get callers on a disk slow on the log header, "
+                 "crash (un-barriered writes lost) at the position of each first reply returning a generation, the recovered store must not serve an older one"])
